@@ -8,8 +8,10 @@ Open Scope N_scope.
 
 (* ---------------- restart, for every DHCP history, with NO hypothesis on the table ---------------- *)
 
-(* For every configuration (the netfilter prefix is inside the home LAN because the constructor succeeded, /repo
-   7a8efa9), every history h of DHCP ops
+(* For every configuration whose subnets in force are those of its own parameters (cfg_consistent: DHCP's sub_changed
+   does not fire — a handler built by New, or one that kept the subnets of a lease file that passed configChanged;
+   the netfilter prefix is inside the home LAN because the constructor succeeded, /repo 7a8efa9), every history h of
+   DHCP ops
    (DISCOVER / REQUEST / DECLINE / RELEASE with arbitrary fields, Capture / Release, MinuteTicker, each with its own
    map-order oracle and clock; well-formed = the client id of every message encodes a byte string), every state s
    the constructor returned for that configuration, every map order in which the table is saved and every capture
@@ -19,7 +21,7 @@ Theorem C18_restart_all_histories :
   forall (text : Type) (print : L.doc -> text) (read : text -> L.input),
   LR.yaml_roundtrip text print read ->
   forall c h cap0 i0 s cap ord,
-    hist_wf h ->
+    hist_wf h -> cfg_consistent c ->
     L.new (abs_cfg c) cap0 i0 = Ok s ->
     let t := abs_table (D.tbl (fst (D.run c (D.init c) h))) in
     Permutation ord t ->
@@ -32,7 +34,7 @@ Print Assumptions C18_restart_all_histories.
 (* the hypothesis [persistable] of C18_restart holds of every state satisfying DHCP's invariant Inv and the
    client-id/address facts below, hence (reachable_facts) of every reachable state *)
 Theorem C18_persistable_reachable : forall c sD cap i s,
-  DI.Inv c sD -> table_J (D.tbl sD) ->
+  cfg_consistent c -> DI.Inv c sD -> table_J (D.tbl sD) ->
   L.new (abs_cfg c) cap i = Ok s ->
   LK.persistable (L.d_n1 s) (abs_table (D.tbl sD)) = true.
 Proof. exact persistable_reachable. Qed.
@@ -55,7 +57,7 @@ Proof. exact step_shaped. Qed.
 Print Assumptions C18_step_shaped.
 
 Example C18_glue_nonvacuous :
-  hist_wf (DSh.with_ch0 h_live) /\ nf_inside gcfg
+  hist_wf (DSh.with_ch0 h_live) /\ cfg_consistent gcfg
   /\ (exists s, L.new (abs_cfg gcfg) (fun _ => false) L.ReadErr = Ok s)
   /\ List.length (L.acked_bindings (abs_table (D.tbl (fst (D.run gcfg (D.init gcfg) (DSh.with_ch0 h_live)))))) = 2%nat.
 Proof. exact glue_nonvacuous. Qed.
